@@ -268,6 +268,8 @@ def run(ctx: Ctx) -> None:
     rule_fid_shape(ctx)
     loops.rule_acc_fresh(ctx, METRIC, "inner_product")
     loops.rule_pivot_choice(ctx, STABF)
+    from ..rules import echelon as _echelon
+    _echelon.rule_elim_direction(ctx)
     from ..rules import bitform as _bitform
     _bitform.rule_helper_shape(ctx)
     _bitform.rule_g_table(ctx)
@@ -290,6 +292,7 @@ def _hoist(src: str) -> str:
 
 
 KNOCKOUTS = [
+    Knockout("inverse-circuit-z-elimination-swapped", "graphiq/backends/stabilizer/functions/stabilizer.py", sub_once("                tableau = tab_row_sum(tableau, j, k)\n", "                tableau = tab_row_sum(tableau, k, j)\n"), "elim.direction", "inverse_circuit"),
     Knockout("prim-g-z-branch", "graphiq/backends/stabilizer/functions/linalg.py", sub_once("        return x2 * (1 - 2 * z2)\n", "        return x2 * (2 * z2 - 1)\n"), "prim.g-table", "g_function"),
     Knockout("prim-rowsum-sign-from-low-bit", "graphiq/backends/stabilizer/functions/linalg.py", sub_once("    r_vector[target_row] = int(phases / 2)\n", "    r_vector[target_row] = phases % 2\n"), "prim.row-sum", "upper bit"),
     Knockout("counter-diagonal-only", METRIC, sub_once("        if np.any(x2_matrix[i]):", "        if x2_matrix[i, i] == 1:"), "fid.shape", "not over the whole row"),
